@@ -1,0 +1,9 @@
+//go:build verif
+
+package expressions
+
+// VerifSplitTokenizedArguments exposes the unexported argument splitter to the
+// verification harness (build tag `verif` only).
+func VerifSplitTokenizedArguments(s string) []string {
+	return splitTokenizedArguments(s)
+}
